@@ -56,6 +56,20 @@ def gen_cases(chk, tier):
                 c = rng.choice([2, 3, 0.5, 1.5, 2.0, -1, -2, 4]) if X[0][0] > 0 else rng.choice([2, 3, 4, -1, -2, 1])
                 nk = "float" if isinstance(c, float) else rng.choice(["int", "npint"])
             out.append((op, X, nk, c, kind))
+    # integer-valued bounds given as integer-dtype arrays: every operation once per repetition
+    for rep in range(reps):
+        for i, op in enumerate(OPS):
+            neg = (i + rep) % 3 == 0 and op not in ("log", "sqrt")
+            base = sorted(rng.randint(1, 60) for _ in range(200))
+            w = sorted(rng.randint(0, 5) for _ in range(200))
+            L, R = [float(b) for b in base], [float(b + d) for b, d in zip(base, w)]
+            if neg:
+                L, R = [-v for v in reversed(R)], [-v for v in reversed(L)]
+            nk = rng.choice(NUM_KINDS)
+            c = rng.choice([2, 3, -2, 1]) if nk in ("int", "npint") else rng.choice([0.5, 2.0, -1.5])
+            if op == "pow":
+                c, nk = rng.choice([2, 3, -1]), "int"
+            out.append((op, (L, R), nk, c, "int_neg" if neg else "int_pos"))
     return out
 
 
@@ -92,9 +106,12 @@ def apply_impl(op, x, c):
 
 def run_impl(case):
     from pyuncertainnumber.pba.pbox_abc import Staircase
-    op, X, nk, c, _ = case
+    op, X, nk, c, kind = case
     try:
-        x = Staircase(np.array(X[0]), np.array(X[1]))
+        if kind.startswith("int_"):       # bounds handed over as integer-dtype arrays
+            x = Staircase(np.array([int(v) for v in X[0]], dtype=np.int64), np.array([int(v) for v in X[1]], dtype=np.int64))
+        else:
+            x = Staircase(np.array(X[0]), np.array(X[1]))
         r = apply_impl(op, x, mk_number(nk, c))
         if not hasattr(r, "left"):
             return ("exc", 9, f"returned {type(r).__name__}")
